@@ -311,7 +311,7 @@ copyPredictorTo32 (const int32_t * in, int32_t * out, uint32_t stride, int32_t n
 
 	// this is only a subroutine to abstract the "iPod can only output 16-bit data" problem
 	for (i = 0, j = 0 ; i < numSamples ; i++, j += stride)
-		out [j] = arith_shift_left (in [i], 8) ;
+		out [j] = in [i] ;
 }
 
 void
